@@ -139,7 +139,9 @@ func c14Expected(r *c14Report) (pcs []uintptr, verdict string) {
 }
 
 var c14Syms = []string{"main.main", "runtime.gopanic", "runtime.panicmem", "runtime.sigpanic", "golang.org/x/tools/gopls/internal/server.(*server).didOpen",
-	"example.com/pkg.T[...].Method", "example.com/pkg.(*T[...]).m", "main.(*app).run.func1", "main.run.func2.1", "runtime.main", "runtime.goexit", "a.b/c.F", "runtime.sigpanic"}
+	"example.com/pkg.T[...].Method", "example.com/pkg.(*T[...]).m", "main.(*app).run.func1", "main.run.func2.1", "runtime.main", "runtime.goexit", "a.b/c.F", "runtime.sigpanic",
+	// near misses of the one symbol after which the next frame's pc is adjusted
+	"runtime.sigpanic0", "runtime.sigpanic.func1", "runtime.sigpanicked", "xruntime.sigpanic", "runtime.sigpani", "runtime.Sigpanic", "vendor/runtime.sigpanic"}
 
 // c14OddSyms are symbol texts the runtime does not print (no package, empty, starting with the argument
 // list, non-ASCII). Symbol text is not part of the result, so a report using them must give the model's
